@@ -29,8 +29,8 @@ fn strategy(tier: Tier) -> BoxedStrategy<FaultCase> {
         merge: 3,
         reopen: 1,
     };
-    // a quarter of the workloads are delete-free under arbitrary merge thresholds (merges select
-    // arbitrary subsets of files; without tombstones the known finding D2 of C05 cannot occur)
+    // a quarter of the workloads run under arbitrary merge thresholds (merges select arbitrary
+    // subsets of files)
     let wl = prop_oneof![
         3 => workload(tier, false, w, 3, 12, 30),
         1 => crate::props::c03::workload_partial(tier, false, w, 3, 12, 30),
@@ -433,7 +433,7 @@ fn exec(c: &FaultCase, env: &Env) -> Outcome {
     out.count("fault-did-not-fire", not_fired);
     out.count("workloads", 1);
     if hist.cfg.small_file != u64::MAX {
-        out.labels.push("delete-free-workload-with-arbitrary-merge-thresholds".into());
+        out.labels.push("workload-with-arbitrary-merge-thresholds".into());
     }
     for s in &sites {
         out.labels.push(format!("site:{}:{}@{}", s.call, s.file_kind, s.op_class));
@@ -451,7 +451,7 @@ pub fn prop() -> Prop<FaultCase> {
         assumptions: &[
             "one transient fault per run; the same call succeeds when retried",
             "the single threaded workload with merge policy never issues the same call sequence in every run (runs where the armed site was not reached are counted as fault-did-not-fire and not judged)",
-            "three quarters of the workloads use thresholds that make every non-empty file eligible; the rest are delete-free under arbitrary thresholds (the known finding D2 of C05 needs a tombstone)",
+            "three quarters of the workloads use thresholds that make every non-empty file eligible, the rest arbitrary thresholds",
         ],
         needs_shim: true,
         budget: |t| t.pick(1920, 24000),
